@@ -202,6 +202,32 @@ def _classify_ESAG(fn) -> Optional[Tuple[str, List[ast.stmt], Optional[ast.expr]
     return "S", stmts, None
 
 
+_PURE_CALLS = {"int", "float", "str", "len", "bool", "tuple", "list", "dict", "set", "frozenset", "sorted", "min", "max", "abs", "round", "repr", "sum", "any", "all", "isinstance"}
+
+
+def _pure_template(t) -> bool:
+    """the helper only computes with its arguments and fills containers it created itself: moving its statements in front of the calling
+    statement cannot be observed by the other calls of that statement"""
+    own = _locals_of(t.stmts, set(t.params))
+    nodes = [n for s_ in t.stmts for n in ast.walk(s_)] + (list(ast.walk(t.result)) if t.result is not None else [])
+    for n in nodes:
+        if isinstance(n, ast.Call):
+            if not (isinstance(n.func, ast.Name) and n.func.id in _PURE_CALLS):
+                # methods of own fresh containers are fine: x.append / x.add / x.update / x.setdefault / x.get
+                if not (isinstance(n.func, ast.Attribute) and isinstance(n.func.value, ast.Name) and n.func.value.id in own
+                        and n.func.attr in ("append", "add", "update", "setdefault", "get", "extend", "items", "keys", "values")):
+                    return False
+        if isinstance(n, (ast.Subscript, ast.Attribute)) and isinstance(n.ctx, (ast.Store, ast.Del)):
+            base = n.value
+            while isinstance(base, (ast.Subscript, ast.Attribute)):
+                base = base.value
+            if not (isinstance(base, ast.Name) and base.id in own):
+                return False
+        if isinstance(n, (ast.Yield, ast.YieldFrom, ast.Await, ast.Global, ast.Nonlocal, ast.Raise, ast.Delete)):
+            return False
+    return True
+
+
 RES = "__result"
 
 
@@ -615,6 +641,27 @@ class _Inliner(ast.NodeTransformer):
             ast.fix_missing_locations(n_)
         return new
 
+    @staticmethod
+    def _unconditional(root, call) -> bool:
+        """the call is evaluated whenever the statement is (not under a lambda / comprehension / short-circuit / conditional expression branch)"""
+        path = []
+
+        def find(n, acc):
+            if n is call:
+                path.extend(acc)
+                return True
+            return any(find(c, acc + [n]) for c in ast.iter_child_nodes(n))
+        if not find(root, []):
+            return False
+        for par, child in zip(path, path[1:] + [call]):
+            if isinstance(par, (ast.Lambda, ast.ListComp, ast.SetComp, ast.DictComp, ast.GeneratorExp, ast.NamedExpr)):
+                return False
+            if isinstance(par, ast.BoolOp) and par.values[0] is not child:
+                return False
+            if isinstance(par, ast.IfExp) and par.test is not child:
+                return False
+        return True
+
     def _hoist(self, st):
         """statement with one call of a form-R helper evaluated first -> structured helper statements + the statement reading the result variable"""
         roots = [st.test] if isinstance(st, ast.If) else ([st] if isinstance(st, (ast.Expr, ast.Assign, ast.AugAssign, ast.AnnAssign, ast.Return)) else [])
@@ -625,13 +672,30 @@ class _Inliner(ast.NodeTransformer):
         for n in ast.walk(root):
             if isinstance(n, ast.Call):
                 t, recv = self._lookup(n)
-                if t is not None and t.form == "R" and not self._inside_own_body(t):
+                if t is not None and t.form in ("R", "A") and not self._inside_own_body(t):
                     cands.append((n, t, recv))
         if len(cands) != 1:
             return None
         call, t, recv = cands[0]
-        if not self._evaluated_first(root, call):
+        if not self._evaluated_first(root, call) and not (_pure_template(t) and self._unconditional(root, call)):
             return None
+        if t.form == "A":
+            # statements first, then the statement with the call replaced by the helper's result expression
+            sp = self._splice(t, call, recv, st)
+            if sp is None or sp[1] is None:
+                return None
+            stmts_a, res_expr = sp
+
+            class RA(ast.NodeTransformer):
+                def visit_Call(self_, n):
+                    if n is call:
+                        return ast.copy_location(res_expr, n)
+                    return self_.generic_visit(n)
+            if isinstance(st, ast.If):
+                st.test = RA().visit(st.test)
+            else:
+                st = RA().visit(st)
+            return stmts_a + [st]
         res = self._res_name(t)
         structured = _structure(copy.deepcopy(t.stmts), RES, [200])
         if structured is None:
